@@ -108,16 +108,21 @@ public:
 
 		~DisableQueueNotify()
 		{
+			bool shouldNotify;
 			{
 				// The counter must be decreased while holding the mutex which a waiting thread
 				// holds when it evaluates its predicate. Otherwise the waiting thread can see
 				// the old counter, then miss the notification below before it blocks, and
 				// sleep forever even there are events in the queue.
+				// Whether to notify is decided under the same mutex: processIf/processUntil put
+				// the events they leave back under it, so the put-back can't fall between the
+				// two reads of emptyQueue() and make pending events look like an empty queue.
 				std::lock_guard<Mutex> queueListLock(queue->queueListMutex);
 				--queue->queueNotifyCounter;
+				shouldNotify = queue->doCanProcess();
 			}
 
-			if(queue->doCanNotifyQueueAvailable() && ! queue->emptyQueue()) {
+			if(shouldNotify) {
 				queue->queueListConditionVariable.notify_one();
 			}
 		}
@@ -184,12 +189,10 @@ public:
 
 		using GetEvent = typename SelectGetEvent<Policies_, EventType_, HasFunctionGetEvent<Policies_, A...>::value>::Type;
 
-		doEnqueue(QueuedEvent{
+		if(doEnqueue(QueuedEvent{
 			GetEvent::getEvent(args...),
 			QueuedEventArgumentsType(std::forward<A>(args)...)
-		});
-
-		if(doCanProcess()) {
+		})) {
 			queueListConditionVariable.notify_one();
 		}
 	}
@@ -201,12 +204,10 @@ public:
 
 		using GetEvent = typename SelectGetEvent<Policies_, EventType_, HasFunctionGetEvent<Policies_, T &&, A...>::value>::Type;
 
-		doEnqueue(QueuedEvent{
+		if(doEnqueue(QueuedEvent{
 			GetEvent::getEvent(std::forward<T>(first), args...),
 			QueuedEventArgumentsType(std::forward<A>(args)...)
-		});
-
-		if(doCanProcess()) {
+		})) {
 			queueListConditionVariable.notify_one();
 		}
 	}
@@ -521,7 +522,11 @@ protected:
 		return func();
 	}
 
-	void doEnqueue(QueuedEvent && item)
+	// Returns whether a waiting thread should be notified. That is decided while the queue
+	// mutex is still held: processIf/processUntil put the events they leave back under the
+	// same mutex, so the put-back can't fall between the two reads of emptyQueue() and make
+	// the event enqueued here look like an empty queue to its own enqueuer.
+	bool doEnqueue(QueuedEvent && item)
 	{
 		BufferedItemList tempList;
 		if(! freeList.empty()) {
@@ -542,6 +547,8 @@ protected:
 
 		std::lock_guard<Mutex> queueListLock(queueListMutex);
 		queueList.splice(queueList.end(), tempList, it);
+
+		return doCanProcess();
 	}
 
 private:
